@@ -960,6 +960,11 @@ func (x *c13Run) fetch(a core.Action) {
 	}
 	if !r.OK() {
 		if allJudged && getFails == 0 {
+			for _, m := range ms {
+				if m.truncBlock {
+					e.Attr("truncated_at_block_boundary")
+				}
+			}
 			e.Fail("fetch-status", "%s answered %s %s", cmd, r.Status, r.Text)
 		} else {
 			e.St.Probes["fetch_refused"]++
@@ -1176,6 +1181,11 @@ func clampSlice(b []byte, off, cnt uint64) []byte {
 // only what the server sent in this response line.
 func (x *c13Run) relations(cmd string, m *c13Msg, got map[string][]byte) {
 	e := x.e
+	defer func() {
+		if e.V != nil && m.truncBlock {
+			e.Attr("truncated_at_block_boundary")
+		}
+	}()
 	whole, okW := got["BODY[]"]
 	if rf, ok := got["RFC822"]; ok && okW {
 		e.St.Checks++
